@@ -36,7 +36,9 @@ pub fn eval(sc: &Scenario) -> CaseResult {
         // a host's spectator endpoint can also be disconnected by the 128-pending-inputs cap when acks
         // are lost; that path is not a timeout and is judged by C18, so it is only predicted on loss-free links
         let lossy = sc.link.loss > 0 || !sc.faults.is_empty() || sc.ops.iter().any(|o| matches!(o, Op::Outage { from, .. } if *from > 100));
-        r.violation = event_timing(sc, &out, &|n, a| lossy && n.starts_with("peer") && a > 100);
+        // (the same cap applies once a spectator has itself given up on its host: it stops acknowledging)
+        let spec_gave_up = |a: u8| a > 100 && out.specs.get(a as usize - 101).map(|s| s.events.iter().any(|e| matches!(e.1, Ev::Disconnected { .. }))).unwrap_or(false);
+        r.violation = event_timing(sc, &out, &|n, a| n.starts_with("peer") && a > 100 && (lossy || spec_gave_up(a)));
     }
     if r.violation.is_none() {
         let m = out.peers.iter().map(|p| p.max_events_len).chain(out.specs.iter().map(|s| s.max_events_len)).max().unwrap_or(0);
@@ -125,9 +127,10 @@ pub fn gen_handshake() -> BoxedStrategy<Scenario> {
 
 /// silence of an enumerated length around the notify delay and the timeout
 pub fn silence_case(i: u64, seed: u64) -> Scenario {
-    let cfgs: [(u32, u32); 4] = [(500, 2000), (100, 300), (300, 1000), (800, 3000)];
-    let (notify, timeout) = cfgs[(i % 4) as usize];
-    let mut k = i / 4;
+    // (the last one has a notify delay above the builder's default timeout of 2 s)
+    let cfgs: [(u32, u32); 5] = [(500, 2000), (100, 300), (300, 1000), (800, 3000), (3000, 6000)];
+    let (notify, timeout) = cfgs[(i % 5) as usize];
+    let mut k = i / 5;
     let around_timeout = k % 2 == 1;
     k /= 2;
     let step = (k % 21) as i64 - 10; // -100..=100 ms in 10 ms steps
@@ -169,7 +172,7 @@ pub fn silence_case(i: u64, seed: u64) -> Scenario {
     }
     sc
 }
-const NSILENCE: u64 = 4 * 2 * 21 * 2 * 2 * 3 * 2;
+const NSILENCE: u64 = 5 * 2 * 21 * 2 * 2 * 3 * 2;
 
 pub fn poll_only_case(i: u64, seed: u64) -> Scenario {
     let mut sc = Scenario::basic(mix(seed, i ^ 0x9011), 2);
@@ -301,7 +304,7 @@ pub fn run_prop(ctx: &Ctx) -> PropReport {
         gen_handshake, ctx.tier.pick(6000, 30000), eval_handshake));
     let reps = ctx.tier.pick(2u64, 6u64);
     rep.part(|| run_enum(ctx, "silence",
-        "enumeration: timeouts {500/2000 (default), 100/300, 300/1000, 800/3000} x silence length = notify or timeout +- 100 ms in 10 ms steps x one/both directions x spectator x poll cadence {16,10,33 ms} x window {8,0,2} x with/without another session's packets (foreign magic) arriving from the silent peer's address during the silence; oracle: the exact Interrupted/Resumed/Disconnected sequence and instants predicted from poll instants and deliveries, grammar; non-trivial = an interruption occurred",
+        "enumeration: timeouts {500/2000 (default), 100/300, 300/1000, 800/3000, 3000/6000} (the two builder setters called in either order) x silence length = notify or timeout +- 100 ms in 10 ms steps x one/both directions x spectator x poll cadence {16,10,33 ms} x window {8,0,2} x with/without another session's packets (foreign magic) arriving from the silent peer's address during the silence; oracle: the exact Interrupted/Resumed/Disconnected sequence and instants predicted from poll instants and deliveries, grammar; non-trivial = an interruption occurred",
         NSILENCE * reps, move |i| silence_case(i % NSILENCE, mix(seed, i / NSILENCE)), eval_silence, true));
     rep.part(|| run_enum(ctx, "poll_only",
         "two sessions (optionally a spectator) with default timeouts on a loss-free link with latency 0-100 ms that merely call poll_remote_clients() every 10/20/50/100 ms for 30 s: no NetworkInterrupted/Disconnected may be reported",
